@@ -129,12 +129,16 @@ class SimProc:
         d = self.world.chooser.delay("proc.launch", 0, 40)
         self.wake_handle = self.loop.call_later(d, self.resume)
         self.world.log_event("cmd_start", self.pid, self.job_i, self.label)
+        for m in self.world.monitors:
+            m.on_cmd_start(self.world, self)
         try:
             rc = await self.future
         finally:
             self.world.procs.discard(self)
         wtime = self.loop.time() - self.t_start
         self.world.log_event("cmd_end", self.pid, self.job_i, self.label, rc)
+        for m in self.world.monitors:
+            m.on_cmd_end(self.world, self, rc)
         return ChildOutcome(
             rc, "".join(self.stdout), "".join(self.stderr), ResourceUsage(0.0, 0.0, wtime)
         )
